@@ -257,43 +257,27 @@ Print Assumptions C15_mask_cflist_exact_when_last_nonzero.
    (CrossLink.v); [zs] maps the produced bytes to Z, the [*_view] functions read the
    decoded fields.  Then the round trips restated directly on [enc] / [dec]. *)
 
-Theorem C15_link_rxparamsetupreq_enc : forall f dr, 0 <= f < 4294967296 -> 0 <= dr < 256 ->
-  rxparamsetupreq_marshal f dr
-  = zs (LW.Mac.Commands.enc (LW.Mac.Commands.PRXParamSetupReq (Z.to_N f) false (Z.to_N dr) 0)).
-Proof. exact rxparamsetupreq_enc_link. Qed.
-Print Assumptions C15_link_rxparamsetupreq_enc.
-
-Theorem C15_link_newchannelreq_enc : forall ch f mx mn,
-  0 <= ch < 256 -> 0 <= f < 4294967296 -> 0 <= mx < 256 -> 0 <= mn < 256 ->
-  newchannelreq_marshal ch f mx mn
-  = zs (LW.Mac.Commands.enc (LW.Mac.Commands.PNewChannelReq (Z.to_N ch) (Z.to_N f) (Z.to_N mx) (Z.to_N mn))).
-Proof. exact newchannelreq_enc_link. Qed.
-Print Assumptions C15_link_newchannelreq_enc.
-
-Theorem C15_link_dlchannelreq_enc : forall ch f, 0 <= ch < 256 -> 0 <= f < 4294967296 ->
-  dlchannelreq_marshal ch f = zs (LW.Mac.Commands.enc (LW.Mac.Commands.PDLChannelReq (Z.to_N ch) (Z.to_N f))).
-Proof. exact dlchannelreq_enc_link. Qed.
-Print Assumptions C15_link_dlchannelreq_enc.
-
-Theorem C15_link_beaconfreqreq_enc : forall f, 0 <= f < 4294967296 ->
-  beaconfreqreq_marshal f = zs (LW.Mac.Commands.enc (LW.Mac.Commands.PBeaconFreqReq (Z.to_N f))).
-Proof. exact beaconfreqreq_enc_link. Qed.
-Print Assumptions C15_link_beaconfreqreq_enc.
-
-Theorem C15_link_pingslotchannelreq_enc : forall f dr, 0 <= f < 4294967296 -> 0 <= dr < 256 ->
-  pingslotchannelreq_marshal f dr
-  = zs (LW.Mac.Commands.enc (LW.Mac.Commands.PPingSlotChannelReq (Z.to_N f) (Z.to_N dr))).
-Proof. exact pingslotchannelreq_enc_link. Qed.
-Print Assumptions C15_link_pingslotchannelreq_enc.
-
-Theorem C15_link_linkadrreq_enc : forall p,
-  0 <= p_dr p < 256 -> 0 <= p_txp p < 256 -> 0 <= p_cntl p < 256 -> 0 <= p_nbrep p < 256 ->
-  List.length (p_mask p) = 16%nat ->
-  linkadrreq_marshal p
-  = zs (LW.Mac.Commands.enc (LW.Mac.Commands.PLinkADRReq (Z.to_N (p_dr p)) (Z.to_N (p_txp p)) (p_mask p)
-                                                         (Z.to_N (p_cntl p)) (Z.to_N (p_nbrep p)))).
-Proof. exact linkadrreq_enc_link. Qed.
-Print Assumptions C15_link_linkadrreq_enc.
+Theorem C15_link_encoders :
+  (forall f dr, 0 <= f < 4294967296 -> 0 <= dr < 256 ->
+     rxparamsetupreq_marshal f dr
+     = zs (LW.Mac.Commands.enc (LW.Mac.Commands.PRXParamSetupReq (Z.to_N f) false (Z.to_N dr) 0))) /\
+  (forall ch f mx mn, 0 <= ch < 256 -> 0 <= f < 4294967296 -> 0 <= mx < 256 -> 0 <= mn < 256 ->
+     newchannelreq_marshal ch f mx mn
+     = zs (LW.Mac.Commands.enc (LW.Mac.Commands.PNewChannelReq (Z.to_N ch) (Z.to_N f) (Z.to_N mx) (Z.to_N mn)))) /\
+  (forall ch f, 0 <= ch < 256 -> 0 <= f < 4294967296 ->
+     dlchannelreq_marshal ch f = zs (LW.Mac.Commands.enc (LW.Mac.Commands.PDLChannelReq (Z.to_N ch) (Z.to_N f)))) /\
+  (forall f, 0 <= f < 4294967296 ->
+     beaconfreqreq_marshal f = zs (LW.Mac.Commands.enc (LW.Mac.Commands.PBeaconFreqReq (Z.to_N f)))) /\
+  (forall f dr, 0 <= f < 4294967296 -> 0 <= dr < 256 ->
+     pingslotchannelreq_marshal f dr
+     = zs (LW.Mac.Commands.enc (LW.Mac.Commands.PPingSlotChannelReq (Z.to_N f) (Z.to_N dr)))) /\
+  (forall p, 0 <= p_dr p < 256 -> 0 <= p_txp p < 256 -> 0 <= p_cntl p < 256 -> 0 <= p_nbrep p < 256 ->
+     List.length (p_mask p) = 16%nat ->
+     linkadrreq_marshal p
+     = zs (LW.Mac.Commands.enc (LW.Mac.Commands.PLinkADRReq (Z.to_N (p_dr p)) (Z.to_N (p_txp p)) (p_mask p)
+                                                            (Z.to_N (p_cntl p)) (Z.to_N (p_nbrep p))))).
+Proof. exact encoders_link. Qed.
+Print Assumptions C15_link_encoders.
 
 Theorem C15_link_decoders : forall bs, bytesN bs ->
   rxparamsetupreq_unmarshal (map Z.of_N bs) = omap rx_view (LW.Mac.Commands.dec LW.Mac.Commands.KRXParamSetupReq bs) /\
@@ -305,56 +289,40 @@ Theorem C15_link_decoders : forall bs, bytesN bs ->
 Proof. exact decoders_link. Qed.
 Print Assumptions C15_link_decoders.
 
-Theorem C15_link_cflist_marshal : forall c, cflist_domain c ->
-  cflist_marshal c = zs (LW.Frame.Model.cflist_marshal (cflist_to_model c)).
-Proof. exact cflist_enc_link. Qed.
-Print Assumptions C15_link_cflist_marshal.
+Theorem C15_link_cflist :
+  (forall c, cflist_domain c -> cflist_marshal c = zs (LW.Frame.Model.cflist_marshal (cflist_to_model c))) /\
+  (forall bs, bytesN bs ->
+     cflist_unmarshal (map Z.of_N bs) = omap cflist_of_model (LW.Frame.Model.cflist_unmarshal bs)).
+Proof. exact cflist_link. Qed.
+Print Assumptions C15_link_cflist.
 
-Theorem C15_link_cflist_unmarshal : forall bs, bytesN bs ->
-  cflist_unmarshal (map Z.of_N bs) = omap cflist_of_model (LW.Frame.Model.cflist_unmarshal bs).
-Proof. exact cflist_dec_link. Qed.
-Print Assumptions C15_link_cflist_unmarshal.
-
-Theorem C15_rxparamsetupreq_mac : forall f dr : N,
-  (f mod 100 = 0)%N -> (f / 100 < 16777216)%N -> (dr <= 15)%N ->
-  exists bs, LW.Mac.Commands.enc (LW.Mac.Commands.PRXParamSetupReq f false dr 0) = Ok bs /\
-             LW.Mac.Commands.dec LW.Mac.Commands.KRXParamSetupReq bs = Ok (LW.Mac.Commands.PRXParamSetupReq f false dr 0).
-Proof. exact rxparamsetupreq_mac. Qed.
-Print Assumptions C15_rxparamsetupreq_mac.
-
-Theorem C15_newchannelreq_mac : forall ch f mx mn : N,
-  ((f mod 100 = 0 /\ f < 1200000000) \/ (2400000000 <= f /\ f mod 200 = 0 /\ f / 200 < 16777216))%N ->
-  (ch < 256)%N -> (mx <= 15)%N -> (mn <= 15)%N ->
-  exists bs, LW.Mac.Commands.enc (LW.Mac.Commands.PNewChannelReq ch f mx mn) = Ok bs /\
-             LW.Mac.Commands.dec LW.Mac.Commands.KNewChannelReq bs = Ok (LW.Mac.Commands.PNewChannelReq ch f mx mn).
-Proof. exact newchannelreq_mac. Qed.
-Print Assumptions C15_newchannelreq_mac.
-
-Theorem C15_dlchannelreq_mac : forall ch f : N, (f mod 100 = 0)%N -> (f / 100 < 16777216)%N -> (ch < 256)%N ->
-  exists bs, LW.Mac.Commands.enc (LW.Mac.Commands.PDLChannelReq ch f) = Ok bs /\
-             LW.Mac.Commands.dec LW.Mac.Commands.KDLChannelReq bs = Ok (LW.Mac.Commands.PDLChannelReq ch f).
-Proof. exact dlchannelreq_mac. Qed.
-Print Assumptions C15_dlchannelreq_mac.
-
-Theorem C15_beaconfreqreq_mac : forall f : N, (f mod 100 = 0)%N -> (f / 100 < 16777216)%N ->
-  exists bs, LW.Mac.Commands.enc (LW.Mac.Commands.PBeaconFreqReq f) = Ok bs /\
-             LW.Mac.Commands.dec LW.Mac.Commands.KBeaconFreqReq bs = Ok (LW.Mac.Commands.PBeaconFreqReq f).
-Proof. exact beaconfreqreq_mac. Qed.
-Print Assumptions C15_beaconfreqreq_mac.
-
-Theorem C15_pingslotchannelreq_mac : forall f dr : N,
-  (f mod 100 = 0)%N -> (f / 100 < 16777216)%N -> (dr <= 15)%N ->
-  exists bs, LW.Mac.Commands.enc (LW.Mac.Commands.PPingSlotChannelReq f dr) = Ok bs /\
-             LW.Mac.Commands.dec LW.Mac.Commands.KPingSlotChannelReq bs = Ok (LW.Mac.Commands.PPingSlotChannelReq f dr).
-Proof. exact pingslotchannelreq_mac. Qed.
-Print Assumptions C15_pingslotchannelreq_mac.
-
-Theorem C15_linkadrreq_mac : forall (dr txp : N) (cm : list bool) (cntl nbrep : N),
-  (dr <= 15)%N -> (txp <= 15)%N -> (cntl <= 7)%N -> (nbrep <= 15)%N -> List.length cm = 16%nat ->
-  exists bs, LW.Mac.Commands.enc (LW.Mac.Commands.PLinkADRReq dr txp cm cntl nbrep) = Ok bs /\
-             LW.Mac.Commands.dec LW.Mac.Commands.KLinkADRReq bs = Ok (LW.Mac.Commands.PLinkADRReq dr txp cm cntl nbrep).
-Proof. exact linkadrreq_mac. Qed.
-Print Assumptions C15_linkadrreq_mac.
+(* the round trips of C15_rxparamsetupreq .. C15_pingslotchannelreq and of the planned
+   LinkADRReq payloads (C14_encodable) on the project's model: encoded by [enc], decoded by
+   [dec] to the same value; NewChannelReq with its exception (C15_newchannelreq_refuted) *)
+Theorem C15_mac_roundtrips :
+  (forall f dr : N, (f mod 100 = 0)%N -> (f / 100 < 16777216)%N -> (dr <= 15)%N ->
+     exists bs, LW.Mac.Commands.enc (LW.Mac.Commands.PRXParamSetupReq f false dr 0) = Ok bs /\
+       LW.Mac.Commands.dec LW.Mac.Commands.KRXParamSetupReq bs = Ok (LW.Mac.Commands.PRXParamSetupReq f false dr 0)) /\
+  (forall ch f mx mn : N,
+     ((f mod 100 = 0 /\ f < 1200000000) \/ (2400000000 <= f /\ f mod 200 = 0 /\ f / 200 < 16777216))%N ->
+     (ch < 256)%N -> (mx <= 15)%N -> (mn <= 15)%N ->
+     exists bs, LW.Mac.Commands.enc (LW.Mac.Commands.PNewChannelReq ch f mx mn) = Ok bs /\
+       LW.Mac.Commands.dec LW.Mac.Commands.KNewChannelReq bs = Ok (LW.Mac.Commands.PNewChannelReq ch f mx mn)) /\
+  (forall ch f : N, (f mod 100 = 0)%N -> (f / 100 < 16777216)%N -> (ch < 256)%N ->
+     exists bs, LW.Mac.Commands.enc (LW.Mac.Commands.PDLChannelReq ch f) = Ok bs /\
+       LW.Mac.Commands.dec LW.Mac.Commands.KDLChannelReq bs = Ok (LW.Mac.Commands.PDLChannelReq ch f)) /\
+  (forall f : N, (f mod 100 = 0)%N -> (f / 100 < 16777216)%N ->
+     exists bs, LW.Mac.Commands.enc (LW.Mac.Commands.PBeaconFreqReq f) = Ok bs /\
+       LW.Mac.Commands.dec LW.Mac.Commands.KBeaconFreqReq bs = Ok (LW.Mac.Commands.PBeaconFreqReq f)) /\
+  (forall f dr : N, (f mod 100 = 0)%N -> (f / 100 < 16777216)%N -> (dr <= 15)%N ->
+     exists bs, LW.Mac.Commands.enc (LW.Mac.Commands.PPingSlotChannelReq f dr) = Ok bs /\
+       LW.Mac.Commands.dec LW.Mac.Commands.KPingSlotChannelReq bs = Ok (LW.Mac.Commands.PPingSlotChannelReq f dr)) /\
+  (forall (dr txp : N) (cm : list bool) (cntl nbrep : N),
+     (dr <= 15)%N -> (txp <= 15)%N -> (cntl <= 7)%N -> (nbrep <= 15)%N -> List.length cm = 16%nat ->
+     exists bs, LW.Mac.Commands.enc (LW.Mac.Commands.PLinkADRReq dr txp cm cntl nbrep) = Ok bs /\
+       LW.Mac.Commands.dec LW.Mac.Commands.KLinkADRReq bs = Ok (LW.Mac.Commands.PLinkADRReq dr txp cm cntl nbrep)).
+Proof. exact mac_roundtrips. Qed.
+Print Assumptions C15_mac_roundtrips.
 
 (* non-vacuity: EU868 (configuration 32): two added channels, one outside the
    CFList data-rate range; index -1 and 5 are errors; the CFList offers only the
